@@ -80,6 +80,13 @@ def bin_fields(r, j, s, hs):
             "gxx": qc(gxx / s), "gyy": qc(gyy / s), "hn": qc(abs(r.Hxy[j]) / hs) if hs else 0}
 
 
+def single_event(r):
+    den = float(r.XX[0] * r.YY[0])
+    return {"t": "single", "n": int(r.navg[0]), "K": int(r.K[0]), "nD": int(len(r.D[0])), "exx": qc(float(r.Gxx_error[0]), 4096),
+            "dxx": qc(float(r.Gxx_dev[0] / r.Gxx[0]), 4096) if r.Gxx[0] else 0,
+            "m2": qc(float(r.XY_M2[0]) / den) if den else 0, "ev": qc(float(r.XY_emp_var[0]) / den) if den else 0}
+
+
 def error_ratios(r, j):
     """The C10 identities as ratios that must equal 1 (ResultTrace.tla ErrorRatios); -1 where undefined (coherence 0,
     coherence exactly 1 for the forms dividing by 1 - g2).  Valid for every coherence in (0, 1]."""
@@ -109,7 +116,25 @@ def error_ratios(r, j):
 
 
 def record_analysis(spec):
-    """Reference two-channel analysis + variants.  Runs in a worker."""
+    """Reference two-channel analysis + variants.  Runs in a worker.  Estimates so inconsistent that they cannot even be normalised
+    (a positive mean power next to a zero density, a negative product under a square root) are a verdict, not a crash."""
+    try:
+        return _record_analysis(spec)
+    except (ZeroDivisionError, ValueError, OverflowError, FloatingPointError) as exc:
+        import traceback
+        tb = traceback.extract_tb(exc.__traceback__)
+        if any(common_src() in (fr.filename or "") for fr in tb):
+            raise                                         # raised inside the code under test: reported by the generic guard
+        return {"meta": dict(spec, nf=0, recorder_exception=f"{type(exc).__name__}: {exc} at {tb[-1].name}:{tb[-1].lineno}"), "c": {"nf": 0},
+                "ev": [{"t": "broken"}]}
+
+
+def common_src():
+    from . import common
+    return str(common.SRC)
+
+
+def _record_analysis(spec):
     x, y = make_record(spec)
     fs = spec["fs"]
     ref = analyze(np.vstack([x, y]), fs, spec)
@@ -317,8 +342,25 @@ def record_analysis(spec):
                     ol = float(rngs.choice([0.0, 0.0, 0.5, 0.3]))
                     fq = float(rngs.uniform(0.05, 0.45)) * fs
                     r = speckit.compute_single_bin(np.vstack([x, y]), fs, fq, L=L, olap=ol, win="hann", order=spec["order"], backend=spec["backend"])
-                    ev.append({"t": "single", "n": int(r.navg[0]), "K": int(r.K[0]), "nD": int(len(r.D[0])), "exx": qc(float(r.Gxx_error[0]), 4096),
-                               "dxx": qc(float(r.Gxx_dev[0] / r.Gxx[0]), 4096) if r.Gxx[0] else 0})
+                    ev.append(single_event(r))
+                # heavily overlapped short segments: (1 - olap) * L < 1, so the rounded start positions repeat
+                r = speckit.compute_single_bin(np.vstack([x, y]), fs, 0.21 * fs, L=4, olap=0.9, win="hann", order=spec["order"], backend=spec["backend"])
+                ev.append(single_event(r))
+            elif kind == "identical":
+                # a record tiled from one block, analysed with segments of that block's length and no overlap: every segment gives bit-identical
+                # products, the scatter about their mean is exactly zero - never negative, and its root is 0, not NaN
+                import speckit
+                rngi = np.random.default_rng(spec["seed"] + 61)
+                for P in (64, 100):
+                    blk = rngi.standard_normal(P)
+                    blk2 = rngi.standard_normal(P)
+                    xt, yt = np.tile(blk, 30), np.tile(blk2, 30)
+                    r = speckit.compute_single_bin(np.vstack([xt, yt]), fs, 0.2 * fs, L=P, olap=0.0, win="hann", order=spec["order"], backend=spec["backend"])
+                    m2 = float(r.XY_M2[0])
+                    dev = float(r.Gxy_emp_dev[0])
+                    ev.append({"t": "identical", "K": int(r.K[0]), "m2sign": int(m2 > 0) - int(m2 < 0), "evsign": int(float(r.XY_emp_var[0]) > 0) - int(float(r.XY_emp_var[0]) < 0),
+                               "devfinite": int(math.isfinite(dev) and math.isfinite(float(r.XY_emp_dev[0]))),
+                               "m2rel": qc(m2 / max(float(r.XX[0] * r.YY[0]), 1e-300), 2 ** 30)})
             elif kind == "beat":
                 # two oscillators beating by exactly one cycle over the record: strong lines in the analysed bin of every segment,
                 # relative phase advancing by 2 pi/n per segment -> the averaged cross spectrum cancels to rounding level and the
@@ -346,6 +388,17 @@ def record_analysis(spec):
                 if int(r.nf) != nf:          # the variant must be the same analysis: same bins (plans depend on N and the configuration only)
                     ev.append({"t": "shape", "kind": "gain", "nf": int(r.nf), "ref": int(nf)})
                     continue
+                if spec.get("gain_nonfinite", True) and spec["backend"] != "cuda":
+                    # the same pair with gaps (NaN / inf at the same places in both channels: zero-filled, y is still g*x)
+                    xn = x.copy()
+                    xn[[5, spec["N"] // 2, spec["N"] - 3]] = [np.nan, np.inf, -np.inf]
+                    rn = analyze(np.vstack([xn, g * xn]), fs, spec)
+                    if int(rn.nf) != nf:
+                        ev.append({"t": "shape", "kind": "gain_nonfinite", "nf": int(rn.nf), "ref": int(nf)})
+                    else:
+                        for j in idx[:20]:
+                            hg = rn.Hxy[j] / g
+                            ev.append({"t": "gain", "hg": [qc(hg.real), qc(hg.imag)], "coh": qc(float(rn.coh[j])), "dead": int(float(rn.S2[j]) == 0.0)})
                 for j in idx:
                     hg = r.Hxy[j] / g
                     ev.append({"t": "gain", "hg": [qc(hg.real), qc(hg.imag)], "coh": qc(float(r.coh[j])), "dead": int(float(r.S2[j]) == 0.0)})
@@ -357,6 +410,20 @@ def record_analysis(spec):
                     ph = -2 * math.pi * float(r.f[j]) * d / fs
                     hh = r.Hxy[j]
                     ev.append({"t": "delay", "d": d, "L": int(r.L[j]), "h": [qc(hh.real), qc(hh.imag)], "cp": qc(math.cos(ph)), "sp": qc(math.sin(ph)), "tight": 0, "K": int(r.K[j])})
+            elif kind == "delayline":
+                # a single-segment bin (K = 1, L = N) at bin number 4 carrying a line that completes 4 cycles in the record: the delayed
+                # copy is exactly the phase-shifted line, so H = exp(-i 2 pi f d/fs) without averaging and without edge effect
+                Nn = spec["N"]
+                d = Nn // 40
+                tt = np.arange(Nn)
+                rngl = np.random.default_rng(spec["seed"] + 57)
+                xl = np.cos(2 * np.pi * 4 * tt / Nn + 0.7) + 1e-4 * rngl.standard_normal(Nn)
+                yl = np.cos(2 * np.pi * 4 * (tt - d) / Nn + 0.7) + 1e-4 * rngl.standard_normal(Nn)
+                r = analyze(np.vstack([xl, yl]), fs, dict(spec, bmin=4.0, win="hann" if spec["win"] == "kaiser" else spec["win"]))
+                if int(r.K[0]) == 1 and int(r.L[0]) == Nn and abs(float(r.f[0]) * Nn / fs - 4.0) < 1e-6:      # (lpsd fixes bmin = 1: no such bin)
+                    ph = -2 * math.pi * float(r.f[0]) * d / fs
+                    hh = r.Hxy[0]
+                    ev.append({"t": "delayline", "d": d, "h": [qc(hh.real), qc(hh.imag)], "cp": qc(math.cos(ph)), "sp": qc(math.sin(ph))})
             elif kind == "delaysingle":
                 # single-bin requests by resolution (fs/fres not an integer) on a long white record delayed by d = L/32 samples:
                 # with K > 3000 segments the phase scatter is sqrt(d/(L K)) < 0.0035 rad, and for a symmetric window the expected
